@@ -21,7 +21,7 @@ from specs import native
 
 R = z3.RealSort()
 cosf = z3.Function("cosf", R, R); sinf = z3.Function("sinf", R, R)
-at2 = z3.Function("at2", R, R, R); hyp = z3.Function("hyp", R, R, R); sqrtf = z3.Function("sqrtf", R, R)
+at2 = z3.Function("at2", R, R, R); hyp = z3.Function("hyp", R, R, R); nrm3 = z3.Function("nrm3", R, R, R, R); sqrtf = z3.Function("sqrtf", R, R)
 PI = z3.Real("PI")
 PI_FACTS = AND(PI > z3.Q(314159, 100000), PI < z3.Q(314160, 100000))
 Z0 = z3.IntVal(0)
@@ -58,6 +58,18 @@ def install_trig(x, ctx):
     x.ext["np.cos"] = f1(cosf, [T1]); x.ext["np.sin"] = f1(sinf, [T1])
     x.ext["np.hypot"] = f2(hyp, [T5])
     x.ext["np.arctan2"] = f2(at2, [T3, T4, T5], swap=True)         # arctan2(y, x): lemmas are stated for (x, y)
+    def np_norm_vec(x_, args, kwargs, st, n):
+        """assumed: numpy.linalg.norm(v) of a Point / 3-sequence is the Euclidean norm: nrm >= 0 and nrm² == x² + y² + z²; for a vector whose third
+        component is zero it IS hypot(x, y) (so a planar rewrite of the chord length keeps every obligation, a 3-D one does not)"""
+        if kwargs or len(args) != 1: raise Unsupported("np.linalg.norm with ord/axis")
+        comps = [x_.as_num(st, c_, n).val for c_ in x_.unpack(args[0], st, n)]
+        if len(comps) != 3: raise Unsupported("np.linalg.norm of a non 3-vector")
+        t = nrm3(*comps)
+        x_.assume.append(AND(t >= 0, t * t == comps[0] * comps[0] + comps[1] * comps[1] + comps[2] * comps[2]))
+        x_.assume.append(IMP(comps[2] == 0, t == hyp(comps[0], comps[1]))); x_.assume.append(T5(comps[0], comps[1]))
+        x_.ghost.setdefault("norm3_args", []).append((st.pc,) + tuple(comps))
+        return fin(t)
+    x.ext["np.linalg"] = VModule("np.linalg"); x.ext["np.linalg.norm"] = np_norm_vec
     def np_sqrt(x_, args, kwargs, st, n):
         a = x_.as_num(st, args[0], n)
         x_.assume.append(T6(a.val)); x_.assume.append(IMP(a.val == 0, sqrtf(a.val) == 0))
@@ -411,6 +423,11 @@ def u_arc_radius(ctx):
     if len(hargs) == 1:
         ca, cb = hargs[0][1], hargs[0][2]
         ctx.check("the chord is measured from the current position to the absolute target: (dx, dy) == resolve(target) − start", IMP(hargs[0][0], AND(ca == tx - ox, cb == ty - oy)), None, None, "post")
+    elif len(x.ghost.get("norm3_args", [])) == 1:
+        # the chord length is taken with a vector norm: it is the XY chord only if the vector has no Z component
+        pc3, ca, cb, cc = x.ghost["norm3_args"][0]
+        ctx.check("the chord is measured in the XY plane from the current position to the absolute target: (dx, dy, dz) == (resolve(target) − start in XY, 0)",
+                  IMP(pc3, AND(ca == tx - ox, cb == ty - oy, cc == 0)), None, None, "post")
     else:
         ca, cb = tx - ox, ty - oy
     d = hyp(ca, cb)
